@@ -766,7 +766,7 @@ pub fn run(ctx: &mut Ctx) {
     let enumerated = parallel(workers, |w| {
         let mut st = Stats::new();
         enumerate(&mut st, &wd, w, workers, max_nodes);
-        wide_cases(&mut st, &wd, w, workers, if max_nodes <= 3 { &[17, 65, 255, 256, 257, 300, 1025, 2049, 4097] } else { &[17, 65, 255, 256, 257, 300, 1023, 1025, 2049, 4097, 8193, 20_000] });
+        wide_cases(&mut st, &wd, w, workers, if max_nodes <= 3 { &[17, 65, 255, 256, 257, 300, 1025, 2049, 4097, 8193] } else { &[17, 65, 255, 256, 257, 300, 1023, 1025, 2049, 4097, 8193, 20_000, 65_000] });
         st
     });
     let failed = enumerated.has_findings();
